@@ -295,7 +295,7 @@ func clusterPhase(R *res.Result, restart bool) (cleanup func()) {
 	}
 	after := records(ld)
 	if len(oks) == 1 {
-		want := fmt.Sprintf("(View true true [%d%%Z] [%d%%Z] None)", 1000+oks[0].n, 2000+oks[0].n)
+		want := fmt.Sprintf("(View true true [%d%%Z] [%d%%Z] None [])", 1000+oks[0].n, 2000+oks[0].n)
 		if after != want {
 			R.Violate("C20:cluster:stored-records-not-from-the-acknowledged-request", "stored "+after+", acknowledged request wrote "+want+" (before: "+before+")", trace)
 		}
